@@ -188,6 +188,17 @@ func (c *Chain) CheckTx(tx []byte) abcitypes.ResponseCheckTx {
 	return first
 }
 
+// CheckTxOn runs CheckTx on one replica only: every node has its own mempool traffic. The
+// consensus state must not depend on it (the caller's CompareState excludes the per-block
+// CheckTx scratch state in such runs).
+func (c *Chain) CheckTxOn(idx int, tx []byte) abcitypes.ResponseCheckTx {
+	var resp abcitypes.ResponseCheckTx
+	r := c.Replicas[idx]
+	c.with(r, "CheckTx", func() { resp = r.App.CheckTx(abcitypes.RequestCheckTx{Tx: tx}) })
+	c.compareStates("CheckTx on one replica")
+	return resp
+}
+
 // ExecBlock executes a block with the given transactions on every replica.
 func (c *Chain) ExecBlock(txs [][]byte, now time.Time) *Block {
 	c.Height++
